@@ -139,6 +139,35 @@ Theorem C14_run_tags : forall v cs, wf (dec_frags v) = true ->
 Proof. exact run_tags. Qed.
 Print Assumptions C14_run_tags.
 
+(* HISTORIES: molecules (each with the reference of its own contig) processed one after the other by ONE TAPS
+   object.  Every molecule gets exactly the calls it gets alone from a fresh object, whatever came before (other
+   contigs, the same coordinates on another contig, the same contig again): all theorems above apply to every
+   molecule of every history *)
+Theorem C14_history_stateless : forall ms,
+  history taps0 ms = map (fun m => calls (m_cfg m) (m_ref m) (m_frags m)) ms.
+Proof. exact (fun ms => history_stateless ms taps0). Qed.
+Print Assumptions C14_history_stateless.
+
+Theorem C14_history_prefix_irrelevant : forall pre m post,
+  nth_error (history taps0 (pre ++ m :: post)) (length pre) = Some (calls (m_cfg m) (m_ref m) (m_frags m)).
+Proof. exact history_prefix_irrelevant. Qed.
+Print Assumptions C14_history_prefix_irrelevant.
+
+(* the model's history entry point used by the correspondence check = the per-molecule entry point on each *)
+Theorem C14_run_history : forall v, forallb (fun m => wf (m_frags m)) (map dec_mol (getL v)) = true ->
+  run_C14 4 v = VL (map (run_C14 0) (getL v)).
+Proof. exact run_history. Qed.
+Print Assumptions C14_run_history.
+
+(* non-vacuity of the history theorems: the example molecule after a molecule at the SAME coordinates on another
+   contig (TTGACAGGNCA: position 1 is not a C there, C4 is CAG) still gets its own contig's letters *)
+Example C14_history_example :
+  history taps0 [mkMol (ex_cfg true) ex_ref2 ex_frags; mkMol (ex_cfg true) ex_ref ex_frags] =
+    [OK [mkCall 1 cT cDot 1; mkCall 4 cC c_x 1; mkCall 5 cC cDot 1; mkCall 9 cC cDot 1];
+     OK [mkCall 1 cT c_Z 1; mkCall 4 cC c_x 1; mkCall 5 cC c_z 1; mkCall 9 cC cDot 1]].
+Proof. vm_compute. reflexivity. Qed.
+Print Assumptions C14_history_example.
+
 (* non-vacuity: reference TCGACCGGNCG, forward molecule, calls on C; R1 0..9 (C1 read as T), R2 2..11.
    C1 = CpG converted -> Z ; C4 = CCG -> x ; C5 = CGG -> z ; C9 = CG at the contig end (truncated) -> '.' ;
    both reference kinds; XM of R1 and the totals *)
